@@ -529,12 +529,18 @@ def t_islice(I, args, kw, node):
     return list(itertools.islice(xs, *rest))
 
 
+def t_bytesio(I, args, kw, node):
+    """io.BytesIO(data): an opaque file object that remembers what it wraps (only handed on to stubs in the modelled code)"""
+    return SObj(None, {"_wrapped": args[0] if args else b""}, I.ctx.fresh_name("BytesIO"))
+
+
 def t_frozenset(I, args, kw, node):
     return frozenset(t_set(I, args, kw, node))
 
 
 import itertools as _itertools
-TYPES = {_itertools.islice: t_islice, frozenset: t_frozenset, _array.array: t_array, int: t_int, float: t_float, bool: t_bool, bytes: t_bytes, list: t_list, tuple: t_tuple,
+import io as _io
+TYPES = {_io.BytesIO: t_bytesio, _itertools.islice: t_islice, frozenset: t_frozenset, _array.array: t_array, int: t_int, float: t_float, bool: t_bool, bytes: t_bytes, list: t_list, tuple: t_tuple,
          set: t_set, dict: t_dict, str: t_str, range: b_range, enumerate: b_enumerate, zip: b_zip,
          reversed: b_reversed, object: t_object}
 
